@@ -37,7 +37,11 @@ class Link(Edge):
 
         self.user_libs = libs
         forward_opts = opts.ForwardOptions.recurse(self.user_libs)
-        self.libs = self.user_libs + forward_opts.libs
+        # Keep the *last* occurrence of each library: the forwarded libraries
+        # come after the ones that need them, so this way every static library
+        # precedes its dependencies on the link line even if the user also
+        # listed a dependency earlier.
+        self.libs = uniques(reversed(self.user_libs + forward_opts.libs))[::-1]
 
         self.user_packages = packages
         self.packages = self.user_packages + forward_opts.packages
